@@ -331,6 +331,149 @@ class C09(Prop):
             if tok(line, "em") != str(get(b, 40, 3)): return "emergency state"
         return None
 
+ME_FIELDS = {   # kind -> list of (ME first bit, width)
+    "air": [(1, 5), (6, 2), (8, 1), (9, 12), (21, 1), (22, 1), (23, 17), (40, 17)],
+    "surface": [(1, 5), (6, 7), (13, 1), (14, 7), (21, 1), (22, 1), (23, 17), (40, 17)],
+    "tss": [(6, 2), (8, 1), (9, 1), (10, 11), (21, 9), (30, 1), (31, 9), (40, 4), (44, 1), (45, 2), (47, 1), (48, 1), (49, 1), (50, 1), (51, 1), (52, 1), (53, 1), (54, 1), (55, 2)],
+    "opair": [(9, 2), (11, 1), (12, 1), (13, 2), (15, 1), (16, 1), (17, 2), (19, 6), (25, 2), (27, 1), (28, 1), (29, 1), (30, 1), (31, 2), (33, 8), (41, 3), (44, 1), (45, 4), (49, 2), (51, 2), (53, 1), (54, 1), (55, 1), (56, 1)],
+    "opsurf": [(9, 2), (11, 1), (12, 1), (13, 2), (15, 1), (16, 1), (17, 3), (20, 1), (21, 4), (25, 2), (27, 1), (28, 1), (29, 1), (30, 1), (31, 2), (33, 8), (41, 3), (44, 1), (45, 4), (49, 2), (51, 2), (53, 1), (54, 1), (55, 1), (56, 1)],
+    "dlc": [(9, 1), (10, 5), (15, 1), (16, 1), (17, 7), (24, 1), (25, 1), (26, 3), (29, 4), (33, 1), (34, 1), (35, 1), (36, 1), (37, 4), (41, 16)],
+}
+
+class C10(Prop):
+    id = "C10"; module = "Adsb.Theorems.C10"; design_ref = "5/C10"
+    deps = ["layout:struct Altitude", "layout:struct SurfacePosition", "layout:struct TargetStateAndStatusInformation", "layout:enum OperationStatus",
+            "layout:struct OperationStatusAirborne", "layout:struct OperationStatusSurface", "layout:struct CapabilityClassAirborne",
+            "layout:struct CapabilityClassSurface", "layout:struct OperationalMode", "layout:enum ADSBVersion", "layout:struct DataLinkCapability",
+            "layout:enum BDS", "layout:enum ME", "layout:enum StatusForGroundTrack", "layout:enum CPRFormat", "layout:enum SurveillanceStatus"]
+    rule = ("field-wise: every value of every field (<= 2^12 values; 17-bit CPR: stratified + all single-bit values) of airborne/surface position, "
+            "target state, operational status airborne/surface and BDS 1,0, other bits random, under DF17, DF18 (all 8 CF) and DF20/21; "
+            "all 32 type codes x 8 subtypes for the dispatch table")
+    claim = "each interpreted field equals the standard's bit field (MSB first) under the standard's scaling; type code and subtype alone select the variant"
+    def ops(self, rng, tier):
+        ops = []
+        reps = 1 if tier == "quick" else 4
+        lim = 512 if tier == "quick" else 4096
+        def sweep(df, tcs, fields, fix=None):
+            for (first, w) in fields:
+                tc = tcs[rng.below(len(tcs))] if tcs else None
+                for r in range(reps):
+                    def fx(rng, b, tc=tc):
+                        if df == 18: put(b, 5, 3, rng.below(8))
+                        if tcs: put(b, 32, 5, tcs[rng.below(len(tcs))])
+                        if fix: fix(rng, b)
+                    ops.extend(field_sweep(rng, df, 32 + first - 1, w, 1, fixups=fx, limit=lim))
+        for df in (17, 18):
+            sweep(df, list(range(9, 19)) + [20, 21, 22], ME_FIELDS["air"][1:])
+            sweep(df, [5, 6, 7, 8], ME_FIELDS["surface"][1:])
+            sweep(df, [29], ME_FIELDS["tss"])
+            sweep(df, [31], ME_FIELDS["opair"], fix=lambda rng, b: put(b, 37, 3, 0))
+            sweep(df, [31], ME_FIELDS["opsurf"], fix=lambda rng, b: put(b, 37, 3, 1))
+            for tc in range(32):
+                for st in range(8):
+                    for r in range(2 * reps):
+                        b = rand_frame(rng, df, tc=tc); put(b, 37, 3, st)
+                        if tc == 31 and st < 2 and r % 2 == 0: make_opstatus_ok(rng, b, st)
+                        ops.append(hexop("F", b))
+        for df in (20, 21):
+            for (first, w) in ME_FIELDS["dlc"]:
+                ops.extend(field_sweep(rng, df, 32 + first - 1, w, reps, bds=0x10, limit=lim))
+        return ops
+    def project(self, op, line):
+        m = re.search(r"me=\{([^}]*)\}", line) or re.search(r"bds=\{([^}]*)\}", line)
+        return (head(line), m.group(1) if m else None)
+    def spec(self, op, line):
+        b = opbytes(op); df = get(b, 0, 5)
+        if df in (17, 18):
+            tc = get(b, 32, 5); st = get(b, 37, 3)
+            if tc == 31 and not pyspec.op_ok(b):
+                return None if line.startswith("ERR") else "operational status outside the version 0-2 layout accepted"
+            if not line.startswith("OK"): return "payload rejected: " + line
+            m = re.search(r"me=\{([^}]*)\}", line)
+            kind, want = pyspec.spec_me(b)
+            if not m or m.group(1).split()[0] != kind: return "type code %d subtype %d selects %s, decoded %s" % (tc, st, kind, m.group(1).split()[0] if m else "?")
+            if want is not None and m.group(1) != want: return "fields: decoded {%s}, standard {%s}" % (m.group(1), want)
+        elif df in (20, 21) and get(b, 32, 8) == 0x10:
+            if not line.startswith("OK"): return "payload rejected: " + line
+            m = re.search(r"bds=\{([^}]*)\}", line)
+            want = pyspec.spec_dlc(b)
+            if not m or m.group(1) != want: return "BDS 1,0: decoded {%s}, standard {%s}" % (m.group(1) if m else "?", want)
+        return None
+
+class C07(Prop):
+    id = "C07"; module = "Adsb.Theorems.C07"; design_ref = "5/C07"
+    deps = ["layout:struct AirborneVelocity", "layout:enum AirborneVelocitySubType", "layout:struct GroundSpeedDecoding", "layout:struct AirspeedDecoding",
+            "shape:AirborneVelocity::calculate", "layout:enum Sign", "layout:enum VerticalRateSource"]
+    tol = 2e-6
+    rule = ("direction bits x boundary-biased 10-bit components (0,1,2,3,511,512,1022,1023 + stratified; thorough: all 2^22), all 2^11 vertical-rate codes, "
+            "all 8 subtypes, all airspeed/heading/NACv/difference codes; field sweeps of every type-19 field; heading/speed compared numerically "
+            "(atan2/hypot in double precision, 2e-6 relative), vertical rate and none/some exactly")
+    claim = "components (raw-1)*k signed, vertical rate (raw-1)*64 signed, none iff not ground-speed subtype or a zero field (theorems); track/speed = atan2/hypot of the exact components (numeric tie)"
+    note = "atan2 and hypot are external functions: the model returns the exact integer components, the driver evaluates libc atan2/sqrt; agreement with the Rust libm port is checked numerically"
+    def ops(self, rng, tier):
+        ops = []
+        edge = [0, 1, 2, 3, 4, 100, 511, 512, 1000, 1021, 1022, 1023]
+        vals = edge + ([rng.below(1024) for _ in range(20)] if tier == "quick" else list(range(1024)))
+        vals = sorted(set(vals))
+        sub = vals if tier == "quick" else vals
+        for df in (17, 18):
+            for st in range(8):
+                for dew in (0, 1):
+                    for dns in (0, 1):
+                        for vew in (vals if df == 17 else edge):
+                            for vns in (sub if (tier == "quick" or st in (1, 2)) else edge):
+                                if tier != "quick" and df == 18: continue
+                                b = rand_frame(rng, df, tc=19)
+                                put(b, 37, 3, st); put(b, 45, 1, dew); put(b, 46, 10, vew); put(b, 56, 1, dns); put(b, 57, 10, vns)
+                                if rng.chance(9, 10): put(b, 69, 9, 1 + rng.below(511))
+                                ops.append(hexop("V", b))
+            for code in range(2048):     # source bit, sign bit, 9-bit rate
+                b = rand_frame(rng, df, tc=19); put(b, 37, 3, 1 + rng.below(2)); put(b, 46, 10, 1 + rng.below(1023)); put(b, 57, 10, 1 + rng.below(1023))
+                put(b, 67, 2, code >> 9); put(b, 69, 9, code & 511)
+                ops.append(hexop("V", b)); ops.append(hexop("F", b))
+            for (first, w) in [(6, 3), (9, 5), (14, 1), (15, 10), (25, 1), (26, 10), (36, 1), (37, 1), (38, 9), (47, 2), (49, 1), (50, 7)]:
+                ops.extend(field_sweep(rng, df, 32 + first - 1, w, 2, tc=19, limit=1024))
+        return ops
+    def project(self, op, line):
+        if op.startswith("V "): return line
+        m = re.search(r"me=\{([^}]*)\}", line)
+        return (head(line), m.group(1) if m else None)
+    def spec(self, op, line):
+        import math
+        b = opbytes(op)
+        st = get(b, 37, 3); dew = get(b, 45, 1); vew = get(b, 46, 10); dns = get(b, 56, 1); vns = get(b, 57, 10)
+        src = get(b, 67, 1); sgn = get(b, 68, 1); vr = get(b, 69, 9); dsg = get(b, 80, 1); dif = get(b, 81, 7)
+        if op.startswith("F "):
+            if not line.startswith("OK"): return "velocity report rejected: " + line
+            sub = {0: "R0", 1: "GS", 2: "GS", 3: "AS", 4: "AS"}.get(st, "R1")
+            if sub == "GS": want_sub = "GS %d %d %d %d" % (dew, vew, dns, vns)
+            elif sub == "AS": want_sub = "AS %d %d %d %d" % (dew, vew, dns, vns - 1 if vns > 0 else 0)
+            else: want_sub = None
+            m = re.search(r"sub=\[([^\]]*)\]", line)
+            if want_sub and (not m or m.group(1) != want_sub): return "sub-type fields: decoded [%s], standard [%s]" % (m.group(1) if m else "?", want_sub)
+            want = "st=%d nacv=%d" % (st, get(b, 40, 5))
+            if want not in line: return "subtype / NACv group"
+            tail = "src=%d sgn=%d vr=%d rsv=%d gs=%d gd=%d" % (src, sgn, vr, get(b, 78, 2), dsg, (dif - 1) * 25 if dif > 1 else 0)
+            if tail not in line: return "rate / difference fields: expected %s in %s" % (tail, line[60:])
+            return None
+        # V: derived velocity
+        if st not in (1, 2) or vew == 0 or vns == 0 or vr == 0:
+            return None if line == "VEL none" else "no information expected, got " + line
+        k = 4 if st == 2 else 1
+        e = (vew - 1) * k * (-1 if dew else 1); n = (vns - 1) * k * (-1 if dns else 1)
+        rate = (vr - 1) * 64 * (-1 if sgn else 1)
+        m = re.fullmatch(r"VEL some hdg=(-?[0-9.]+) gs=(-?[0-9.]+) vr=(-?\d+)", line)
+        if not m: return "derived velocity expected, got " + line
+        h = math.degrees(math.atan2(e, n)); h = h + 360 if h < 0 else h
+        g = math.hypot(e, n)
+        if int(m.group(3)) != rate: return "vertical rate %s, standard %d" % (m.group(3), rate)
+        if abs(float(m.group(2)) - g) > 1e-5 * max(1, g): return "ground speed %s, norm of (%d,%d) is %.6f" % (m.group(2), e, n, g)
+        hv = float(m.group(1))
+        if abs(hv - h) > 2e-4 and abs(abs(hv - h) - 360) > 2e-4: return "track %s, atan2(%d,%d) is %.6f" % (m.group(1), e, n, h)
+        if not (0 <= hv < 360): return "track %s outside [0, 360)" % m.group(1)
+        return None
+    def nontrivial(self, op, line): return line.startswith("VEL some") or line.startswith("OK")
+
 ALL = {}
-for c in [C02, C03, C04, C06, C08, C09]:
+for c in [C02, C03, C04, C06, C07, C08, C09, C10]:
     ALL[c.id] = c
